@@ -99,10 +99,17 @@ def p_macro_nesting(text):
     return False
 
 
+IF_LINE = re.compile(r"^[ \t]*#[ \t]*(?:el)?if[ \t(]([^\n]*)$", re.M)
+
+
 def p_div_zero(text):
-    """`/` or `%` whose right operand is a zero-valued literal or a parenthesised `n-n`."""
-    return bool(re.search(r"[/%][ \t]*(?:\([ \t]*)*(0[xX]0+|0+(?:\.0*)?)(?![\w.'])", text)) or \
-        bool(re.search(r"[/%][ \t]*\([ \t]*(\d+)[ \t]*-[ \t]*\1[ \t]*\)", text))
+    """`/` or `%` whose right operand is a zero-valued literal or a parenthesised `n-n`; in the
+    controlling expression of #if / #elif (where an undefined identifier counts as 0) also one
+    whose right operand starts with an identifier."""
+    if re.search(r"[/%][ \t]*(?:\([ \t]*)*(0[xX]0+|0+(?:\.0*)?)(?![\w.'])", text) or \
+            re.search(r"[/%][ \t]*\([ \t]*(\d+)[ \t]*-[ \t]*\1[ \t]*\)", text):
+        return True
+    return any(re.search(r"[/%][ \t]*(?:[-+!~(][ \t]*)*[A-Za-z_]", m.group(1)) for m in IF_LINE.finditer(text))
 
 
 def p_div_overflow(text):
@@ -142,7 +149,11 @@ CLASSES = [
 ]
 
 
-def classes_of(text):
+def classes_of(text, mode="pf"):
+    """Finding classes of an input.  A -D value ends up in `#if VAL` of the probe source, so for
+    that feeding mode the predicates look at it as a controlling expression."""
+    if mode == "D":
+        text = "#if " + text.replace("\n", " ") + "\n"
     return [cid for cid, pred in CLASSES if pred(text)]
 
 
@@ -229,6 +240,11 @@ def edge_inputs(tier):
                            "#define f(x) x\n1f(1);\n", "#define L 1\nL\"x\";\n", "#define R 1\nR\"(x)\";\n", "#define f(x) x\n#if f(\n#endif\n",
                            "#define f(x) x\n#if f(1\n#endif\n", "#define f(x,y) x\n#if f(1)\n#endif\n", "#define f(x) x\n#if f\n#endif\n"]):
         add("def%d" % i, t)
+    for i, t in enumerate(["#define X 1", "#undef X", "#include \"inc_ok.h\"", "#include <inc_ok.h>", "#include \"missing.h\"", "#pragma once",
+                           "#error x", "#warning x", "#if 1", "#ifdef X", "#ifndef X", "#else", "#endif", "#elif 1", "#line 5", "#ident \"x\"", "#bogus",
+                           "#define f(x) x", "#define f(x) x\nf(1)", "#if 0\n#endif", "#if 0\n#else", "#pragma push_macro(\"x\")", "#include \"inc_nonl.h\""]):
+        add("nonl%d" % i, t, inc)
+        add("nonl-after%d" % i, "int before;\n" + t, inc)
     # pragma / misc directives
     for i, t in enumerate(["#pragma\n", "#pragma once\n", "#pragma once once\n", "#pragma once\n#pragma once\n", "#pragma \"\n", "#pragma (((\n",
                            "#pragma push_macro(\n", "#pragma push_macro(\"\n", "#pragma push_macro(\"x\")\n" * 5 + "#pragma pop_macro(\"x\")\n" * 6,
@@ -367,7 +383,7 @@ def make_jobs(inputs, modes_for, work):
             elif mode == "D":
                 j.tool = "parse_file"
                 j.args = ["-D", "VAL=" + as_arg(text), "-D", as_arg(text), "use.h"]
-            j.classes = cls
+            j.classes = classes_of(as_text(text), "D") if mode == "D" else cls
             jobs.append(j)
     return jobs
 
@@ -512,6 +528,8 @@ def _run(ctx, tier, kind, work, phase, t0):
     edges = edge_inputs(tier)
 
     def lex_modes(idx, name, text):
+        if tier == "thorough":
+            return ["pf", "ig"] + (["inc"] if idx % 4 == 0 else []) + (["N"] if idx % 4 == 1 else []) + (["D"] if idx % 4 == 2 else [])
         m = ["pf"]
         if idx % 2 == 0:
             m.append("ig")
@@ -519,7 +537,7 @@ def _run(ctx, tier, kind, work, phase, t0):
             m.append("inc")
         if idx % 8 == 3:
             m.append("N")
-        if idx % 8 == 5 and "\x00" not in as_text(text):
+        if idx % 8 == 5:
             m.append("D")
         return m
 
